@@ -1,8 +1,7 @@
 (* LinkValidator::do_checks (link_validator.rs) and the dispatcher's routing
    (validator_dispatcher.rs). *)
-From FP Require Import Model.Base Model.Rdh Model.RdhChecks Model.CdpRunning Model.Alpide.
+From FP Require Import Model.Base Model.Rdh Model.RdhChecks Model.CdpRunning Model.Alpide Model.Scanner.
 
-Record cdp := { c_rdh : rdh; c_payload : list N; c_off : N }.
 
 Record link_state := { lk_sanity : sanity_state; lk_running : running_state; lk_cdp : cdp_state }.
 
